@@ -10,7 +10,10 @@ from checks import htmlfam
 
 HOSTILE = ['"', '">', '"><script>alert(1)</script>', "<", ">", "&", "'", "&quot;", "&lt;script&gt;", "--><b>", "]]>", "`", "\\\"", "\" onmouseover=\"x",
            "javascript:alert(1)", "JAVASCRIPT:x", "vbscript:x", "file:///x", "data:text/html;base64,xx", "data:image/png;x", "data:image/svg+xml,x", " javascript:x",
-           "java\tscript:x", "é\"", "\x01\"", "<!--", "<?", "<![CDATA[", "</title>", "<img src=x onerror=y>"]
+           "java\tscript:x", "é\"", "\x01\"", "<!--", "<?", "<![CDATA[", "</title>", "<img src=x onerror=y>",
+           # doubly encoded references: the parser decodes one level, so the URL in the tree still spells a reference
+           # (`javascript&colon;alert(1)`); the href escaper must encode its `&` (seeded change C02-m5 kept it)
+           "javascript&amp;colon;alert(1)", "vbscript&amp;#58;x", "JaVaScRiPt&amp;#x3a;x", "data&amp;colon;text/html,x", "a&amp;amp;b&amp;lt;c"]
 
 TEMPLATES = [
     "``` {p}\ncode\n```\n", "~~~ x {p}\ncode\n~~~\n", "[a]({p})\n", "[a](<{p}>)\n", "[a](/u \"{p}\")\n", "![{p}](/u)\n", "![a]({p} \"{p}\")\n",
